@@ -34,7 +34,7 @@ def run_os(prop, tier, seed, runs, builds, own_guards, crash_decisive=True, grou
         b = r.get("build") or builds[i % len(builds)]
         out = os.path.join(od, "t_%s_%d.ndjson" % (b, i))
         s = seed * 100003 + i
-        cmd = [exes[b], "--out", out, "--seed", str(s)] + list(r["args"])
+        cmd = [exes[b], "--out", out, "--seed", str(s), "--segs", "1"] + list(r["args"])
         traces.append((out, b, r.get("tag", ""), r))
         jobs.append((lambda cmd=cmd, env=r.get("env"): vlib.sh(cmd, timeout=driver_timeout, env=env)))
     t0 = time.time()
@@ -44,6 +44,7 @@ def run_os(prop, tier, seed, runs, builds, own_guards, crash_decisive=True, grou
             raise vlib.InfraError("driver failed rc=%d: %s" % (rc, o[-2000:]))
     vlib.check_complete(V, prop, res, traces, what=lambda t: "%s.%s" % (t[2], t[1]))
     log("  ran %d implementation executions in %.1fs" % (len(jobs), time.time() - t0))
+    segcov = vlib.seg_pass(V, prop, [t[0] for t in traces], tag=(outname or prop))
 
     groups = [traces[i:i + group] for i in range(0, len(traces), group)]
     tvjobs = []
@@ -101,6 +102,7 @@ def run_os(prop, tier, seed, runs, builds, own_guards, crash_decisive=True, grou
            "runs_sample": [{"args": r["args"], "env": r.get("env"), "tag": r.get("tag", "")} for r in runs[:4]],
            "samples": vlib.sample_lines(traces[0][0], 3) + [l for l in open(traces[0][0]) if '"e":"os"' in l][:2],
            "exhaustive": False}
+    cov.update(segcov)
     if extra_cov:
         cov.update(extra_cov)
     if not finish:
